@@ -266,6 +266,103 @@ Theorem C14_spec_accept_sound : forall D ST ns tr st c c' st',
   s_accept D ST ns st c tr = (c', V_ok st') -> exists ls, srun D ST ns st ls = Some st'.
 Proof. exact s_accept_sound. Qed.
 
+(* … and from the initial state its generic part is reachable, so every generic theorem applies *)
+Theorem C14_spec_accept_reach : forall D ST ns init nodes tr c' st',
+  s_accept D ST ns (sinit init nodes) O tr = (c', V_ok st') ->
+  (exists ls, srun D ST ns (sinit init nodes) ls = Some st') /\ greach ST init (s_g st').
+Proof. exact s_accept_sound2. Qed.
+
+(* the recorded requests ARE the requests the model's call sent, in order *)
+Theorem C14_accept_requests : forall ST tr st c c' st',
+  g_accept ST st c tr = (c', V_ok st') ->
+  forall i o, nth_error tr i = Some o -> op_requests st' (c + i) o.
+Proof. exact g_accept_requests. Qed.
+
+(* C14_ok_sound: every `ok` of the correspondence check goes through [g_accept]; for an accepted
+   history the property's sentences hold OF THE RECORDED requests, answers and outcomes:
+   1. UNPREPARED, PREPARED(same id), r  =>  the recorded requests are EXECUTE, PREPARE of the text,
+      EXECUTE with the same id, values, consistency, serial consistency, page size, paging state,
+      timestamp, and the recorded outcome is the normal result of r;
+   2. UNPREPARED, PREPARED(other id)  =>  the outcome is RepreparedIdChanged and exactly EXECUTE,
+      PREPARE were recorded (nothing resent);
+   3. every recorded EXECUTE is built from a value the statement's cell had (initial or a stored
+      announcement) — it presents that metadata's id — and asks to skip metadata only with columns;
+   4. recorded rows were decoded with the columns sent in the last answer, or, if it had none and
+      skipping was requested, with those of such a cell value. *)
+Theorem C14_ok_sound : forall ST init tr c' st',
+  g_accept ST (ginit init) O tr = (c', V_ok st') ->
+  forall i nd ext a xs out, nth_error tr i = Some (TO_exec nd ext a xs out) ->
+  let s := ST (xa_stmt a) in
+  (forall i0 pm r, map x_resp xs = [RUnprepared i0; RPrepared (s_id s) pm; r] ->
+     exists m1 m2,
+       let f1 := mk_exec_frame s ext a m1 in
+       let f2 := mk_exec_frame s ext a m2 in
+       map x_req xs = [Q_execute f1; Q_prepare (s_text s); Q_execute f2] /\
+       (f_id f2 = s_id s /\ f_id f2 = f_id f1 /\ f_values f2 = f_values f1 /\ f_cons f2 = f_cons f1 /\
+        f_serial f2 = f_serial f1 /\ f_page_size f2 = f_page_size f1 /\ f_paging f2 = f_paging f1 /\
+        f_ts f2 = f_ts f1) /\
+       obs_out_eqb (obs_of_outcome (outcome_of ext (cp_cached ext (xa_use_cached a) m2) r)) out = true) /\
+  (forall i0 id pm, map x_resp xs = [RUnprepared i0; RPrepared id pm] -> id <> s_id s ->
+     obs_out_eqb (OB_err E_IdChanged) out = true /\
+     exists m, map x_req xs = [Q_execute (mk_exec_frame s ext a m); Q_prepare (s_text s)]) /\
+  (forall f, In (Q_execute f) (map x_req xs) ->
+     exists m, f = mk_exec_frame s ext a m /\ (m = init (xa_stmt a) \/ In m (g_ann st' (xa_stmt a))) /\
+               (f_skip f = true -> m_count m <> 0)) /\
+  (forall cols pg rows t, out = OB_rows cols pg rows t ->
+     exists m b pre,
+       map x_resp xs = pre ++ [RRows b] /\
+       (m = init (xa_stmt a) \/ In m (g_ann st' (xa_stmt a))) /\
+       last (map x_req xs) (Q_prepare 0) = Q_execute (mk_exec_frame s ext a m) /\
+       match rb_meta b with
+       | RM_full _ sent => cols = sent
+       | RM_none _ => if f_skip (mk_exec_frame s ext a m) then cols = m_cols m else cols = []
+       end).
+Proof. exact accepted_sentences. Qed.
+
+(* Session::prepare: the new statement is one some node announced and every node that prepared it
+   did so under its id; different ids => PreparedStatementIdsMismatch; nobody => AllAttemptsFailed *)
+Theorem C14_prepare_on_all : forall rs,
+  match prepare_on_all rs with
+  | Ok (id, m) => In (RPrepared id m) rs /\ forall id' m', In (RPrepared id' m') rs -> id' = id
+  | Err PE_AllFailed => forall id m, ~ In (RPrepared id m) rs
+  | Err PE_IdsMismatch => exists id m id' m', In (RPrepared id m) rs /\ In (RPrepared id' m') rs /\ id <> id'
+  end.
+Proof. exact prepare_on_all_spec. Qed.
+
+Theorem C14_prep_accept_sound : forall rs o, prep_accept rs o = true ->
+  match o with
+  | PO_ok id cols => exists m, In (RPrepared id m) rs /\ m_cols m = cols /\
+                               prepare_on_all (RPrepared id m :: rs) = Ok (id, m)
+  | PO_err e => prepare_on_all rs = Err e
+  end.
+Proof. exact prep_accept_sound. Qed.
+
+(* prepare_nongeneric with its second round: an accepted observation is the result of
+   [session_prepare] for some order of the recorded answers *)
+Theorem C14_session_prep_accept_sound : forall rs1 rs2 o, session_prep_accept rs1 rs2 o = true ->
+  match rs2, o with
+  | None, PO_ok id cols => exists m, In (RPrepared id m) rs1 /\ m_cols m = cols /\
+                                     forall r2, session_prepare (RPrepared id m :: rs1) r2 = Ok (id, m)
+  | None, PO_err _ => False
+  | Some r2, PO_ok id cols => exists e m, prepare_on_all rs1 = Err e /\ In (RPrepared id m) r2 /\ m_cols m = cols /\
+                                          session_prepare rs1 (RPrepared id m :: r2) = Ok (id, m)
+  | Some r2, PO_err e => exists e1, prepare_on_all rs1 = Err e1 /\ session_prepare rs1 r2 = Err e
+  end.
+Proof. exact session_prep_accept_sound. Qed.
+
+(* the liveness caveat of the batch loop, formally: the loop has no bound on the number of
+   UNPREPARED answers — for every n there is a schedule (a server that evicts the statement again
+   after every re-preparation) in which one BATCH call has sent n+1 identical BATCH frames and is
+   still waiting.  (The execute path gives up after one re-preparation: C14_call_log.) *)
+Theorem C14_batch_loop_unbounded : forall ST init c ext s v pm n,
+  let b := mkB [BI_prep s v] 0 1 None None in
+  exists st,
+    grun ST (ginit init) (GL_batch c ext b :: evict_forever c (s_id (ST s)) pm n) = Some st /\
+    k_st (g_calls st c) = CS_batch b /\
+    List.length (filter (fun e => match fst e with Q_batch _ => true | _ => false end) (k_sent (g_calls st c))) = S n.
+Proof. exact batch_loop_unbounded. Qed.
+
+
 (* ---------------------------------------------------------------------------------------- *)
 (* non-vacuity: concrete histories of the specification system                                *)
 (* ---------------------------------------------------------------------------------------- *)
@@ -655,6 +752,55 @@ Example C14_ex_par :
   end = true.
 Proof. vm_compute. reflexivity. Qed.
 
+Example C14_ex_prepare :
+  let pA := RPrepared [1] (meta_of_cols (Some [7;1]) cA) in
+  let pB := RPrepared [1] (meta_of_cols None cB) in
+  let pX := RPrepared [2] (meta_of_cols None cA) in
+  prepare_on_all [RDbError 8704; pA; pB] = Ok ([1], meta_of_cols (Some [7;1]) cA) /\
+  prepare_on_all [pB; pA] = Ok ([1], meta_of_cols None cB) /\
+  prepare_on_all [pA; RVoid; pX] = Err PE_IdsMismatch /\
+  prepare_on_all [RDbError 8704; RVoid] = Err PE_AllFailed /\
+  prep_accept [RDbError 8704; pA; pB] (PO_ok [1] cB) = true /\
+  prep_accept [RDbError 8704; pA; pB] (PO_ok [1] cA) = true /\
+  prep_accept [pA; pB] (PO_ok [1] [mkCol 9 TInt]) = false /\
+  prep_accept [pA; pX] (PO_ok [1] cA) = false /\
+  prep_accept [pA; pX] (PO_err PE_IdsMismatch) = true /\
+  prep_accept [pA; pB] (PO_err PE_IdsMismatch) = false /\
+  prep_accept [pA] (PO_err PE_AllFailed) = false /\
+  prep_accept [RDbError 8704] (PO_err PE_AllFailed) = true /\
+  session_prepare [RDbError 8704] [pB] = Ok ([1], meta_of_cols None cB) /\
+  session_prep_accept [RDbError 8704] (Some [pB]) (PO_ok [1] cB) = true /\
+  session_prep_accept [pA] (Some [pB]) (PO_ok [1] cB) = false /\
+  session_prep_accept [RDbError 8704] None (PO_err PE_AllFailed) = false /\
+  session_prep_accept [pA; pX] (Some [pA; pX]) (PO_err PE_IdsMismatch) = true.
+Proof. vm_compute. repeat split; reflexivity. Qed.
+
+(* mixed cluster: statement prepared through a node WITHOUT the extension (cell without id), executed
+   on a node WITH it: empty id presented with skip_metadata, the node answers with id + columns, the
+   cell takes them; then on the node without the extension (cached metadata off): no id, no skip,
+   nothing stored; back on the extension node the id is presented *)
+Example C14_ex_mixed_cluster :
+  let nodes := fun nd => mkNode (Nat.eqb nd 0) (fun _ => true) (fun _ => 0) (fun _ => 0) in
+  match srun exD exST 1 (sinit (exInit false) nodes)
+          [SL_exec 0 0 (exArgs false); SL_serve 0 payA; SL_recv 0;
+           SL_exec 1 1 (exArgs false); SL_serve 1 payA; SL_recv 1;
+           SL_exec 2 0 (exArgs false)] with
+  | Some st =>
+      let g := s_g st in
+      match k_sent (g_calls g 0), k_rcvd (g_calls g 0), k_sent (g_calls g 1), k_rcvd (g_calls g 1), k_sent (g_calls g 2) with
+      | [(Q_execute f0, _)], [RRows b0], [(Q_execute f1, _)], [RRows b1], [(Q_execute f2, _)] =>
+          obytes_eqb (f_rmid f0) (Some []) && f_skip f0 &&
+          match rb_meta b0 with RM_full (Some i) _ => bytes_eqb i [7;1] | _ => false end &&
+          obytes_eqb (f_rmid f1) None && negb (f_skip f1) &&
+          match rb_meta b1 with RM_full None _ => true | _ => false end &&
+          obytes_eqb (f_rmid f2) (Some [7;1]) && f_skip f2 &&
+          (List.length (g_ann g 0) =? 1)%nat
+      | _, _, _, _, _ => false
+      end
+  | None => false
+  end = true.
+Proof. vm_compute. reflexivity. Qed.
+
 Print Assumptions C14_transparent.
 Print Assumptions C14_direct.
 Print Assumptions C14_id_changed.
@@ -678,3 +824,10 @@ Print Assumptions C14_call_log.
 Print Assumptions C14_par_sound.
 Print Assumptions C14_store_announced.
 Print Assumptions C14_cell_follows_rows.
+Print Assumptions C14_spec_accept_reach.
+Print Assumptions C14_accept_requests.
+Print Assumptions C14_ok_sound.
+Print Assumptions C14_prepare_on_all.
+Print Assumptions C14_prep_accept_sound.
+Print Assumptions C14_batch_loop_unbounded.
+Print Assumptions C14_session_prep_accept_sound.
